@@ -107,7 +107,26 @@ class Ctx:
                     'v': self.fresh_lifted(k, v.args[0], base + '.v')}
         if v.k == 'none':
             return None
+        if v.k == 'map':
+            k2, v2 = v.args
+            return {'dom': z3.Const(self.fresh_name(base + '.dom'), z3.ArraySort(ks, z3.ArraySort(self.sort(k2), z3.BoolSort()))),
+                    'val': self.fresh_lifted(k, T('lift', (k2, v2)), base + '.val')}
+        if v.k == 'lift':
+            # family over k of families over k2: nested arrays, innermost per leaf of v2
+            k2, v2 = v.args
+            inner = self.fresh_lifted(k2, v2, base)
+            return self._relift(ks, k2, v2, base)
         raise TypeError(f'cannot lift {v} over {k}')
+
+    def _relift(self, ks, k2: T, v2: T, base: str):
+        if v2.k in SCALARISH:
+            return z3.Const(self.fresh_name(base), z3.ArraySort(ks, z3.ArraySort(self.sort(k2), self.sort(v2))))
+        if v2.k == 'tuple':
+            return tuple(self._relift(ks, k2, a, f'{base}.{i}') for i, a in enumerate(v2.args))
+        if v2.k == 'opt':
+            return {'none': z3.Const(self.fresh_name(base + '.none'), z3.ArraySort(ks, z3.ArraySort(self.sort(k2), z3.BoolSort()))),
+                    'v': self._relift(ks, k2, v2.args[0], base + '.v')}
+        raise TypeError(f'cannot lift a map with values {v2}')
 
     def select(self, v: T, lifted, key):
         if v.k in SCALARISH:
@@ -118,7 +137,21 @@ class Ctx:
             return {'none': z3.Select(lifted['none'], key), 'v': self.select(v.args[0], lifted['v'], key)}
         if v.k == 'none':
             return None
+        if v.k == 'map':
+            return {'dom': z3.Select(lifted['dom'], key), 'val': self.select(T('lift', v.args), lifted['val'], key)}
+        if v.k == 'lift':
+            return self._map_leaves(v.args[1], lifted, lambda a: z3.Select(a, key))
         raise TypeError(f'select on lifted {v}')
+
+    def _map_leaves(self, v2: T, rep, fn, rep2=None):
+        if v2.k in SCALARISH:
+            return fn(rep) if rep2 is None else fn(rep, rep2)
+        if v2.k == 'tuple':
+            return tuple(self._map_leaves(a, r, fn, None if rep2 is None else rep2[i]) for i, (a, r) in enumerate(zip(v2.args, rep)))
+        if v2.k == 'opt':
+            return {'none': (fn(rep['none']) if rep2 is None else fn(rep['none'], rep2['none'])),
+                    'v': self._map_leaves(v2.args[0], rep['v'], fn, None if rep2 is None else rep2['v'])}
+        raise TypeError(f'leaves of {v2}')
 
     def store(self, v: T, lifted, key, val):
         if v.k in SCALARISH:
@@ -130,6 +163,10 @@ class Ctx:
                     'v': self.store(v.args[0], lifted['v'], key, val['v'])}
         if v.k == 'none':
             return None
+        if v.k == 'map':
+            return {'dom': z3.Store(lifted['dom'], key, val['dom']), 'val': self.store(T('lift', v.args), lifted['val'], key, val['val'])}
+        if v.k == 'lift':
+            return self._map_leaves(v.args[1], lifted, lambda a, b: z3.Store(a, key, b), val)
         raise TypeError(f'store on lifted {v}')
 
     def lifted_eq_at(self, v: T, a, b, key):
@@ -187,6 +224,10 @@ class Ctx:
             return {'none': z3.If(c, a['none'], b['none']), 'v': self.ite_lifted(v.args[0], c, a['v'], b['v'])}
         if v.k == 'none':
             return None
+        if v.k == 'map':
+            return {'dom': z3.If(c, a['dom'], b['dom']), 'val': self.ite_lifted(T('lift', v.args), c, a['val'], b['val'])}
+        if v.k == 'lift':
+            return self._map_leaves(v.args[1], a, lambda x, y: z3.If(c, x, y), b)
         raise TypeError(f'ite_lifted on {v}')
 
     # ------------------------------------------------------------ quantifiers
